@@ -136,6 +136,15 @@ impl Probe for bool {
         }
     }
 }
+impl Probe for u32 {
+    fn same(c: Self, s: &'static Self, r: Self) -> Result<u64, String> {
+        if c == r && *s == r {
+            Ok(1)
+        } else {
+            Err(format!("const {} static {} run-time {}", c, s, r))
+        }
+    }
+}
 impl Probe for HandleControl {
     fn same(c: Self, s: &'static Self, r: Self) -> Result<u64, String> {
         if c == r && *s == r {
